@@ -78,10 +78,19 @@ def h_masked(ctx, plan, case, rec, rng, nk, hist, route, guarded):
     issues = [Issue("mask." + i.clause, i.detail, rep) for i in ia]
     if ra is not None and rb is not None:
         d = engine.same_trace(ra, rb)
+        cond = f"{opn},{rep}"
+        if do_update and len(eff) < len(vals) and set(ra.assign) == set(rb.assign):
+            # which choices differ?  If a masked-off entry is present and every difference lies in
+            # a branch of a switch-like node, the mechanism is the switch's re-run of its branch
+            # on an UnknownChange index tag (the masked-off update tags its value conservatively)
+            branchy = {p for s in case.node.sites() if s.switchy for p, _ in s.paths()}
+            diff = {p for p in ra.assign if not engine._same_value(ra.assign[p], rb.assign[p])}
+            if diff and diff <= branchy:
+                cond = "update,masked-off-entry-reruns-switch-branch"
         if d:
-            issues.append(Issue("maskc.differs", f"Mask-wrapped constraint gives a different trace than its effective bare constraint under the same key: {d}", f"{opn},{rep}"))
+            issues.append(Issue("maskc.differs", f"Mask-wrapped constraint gives a different trace than its effective bare constraint under the same key: {d}", cond))
         if np.isfinite(wb) and not common.close(wa, wb, terms=max(1, len(vals))):
-            issues.append(Issue("maskc.weight", f"weight {wa} (masked) vs {wb} (effective bare constraint)", f"{opn},{rep}"))
+            issues.append(Issue("maskc.weight", f"weight {wa} (masked) vs {wb} (effective bare constraint)", cond))
     route("masked-" + opn, issues)
     ctx.count("masked_pairs")
     ctx.count("masked_rep:" + rep)
@@ -95,6 +104,12 @@ def nontrivial(case, hist):
     return any(("T" in h.split("flags=")[-1] and "F" in h.split("flags=")[-1]) for h in hist if h.startswith("masked")) and any(k not in ("Dist", "Static") for k in case.kinds)
 
 
+def sig_fn(case, hist, op, issue, sig):
+    if issue.cond and issue.cond.endswith("masked-off-entry-reruns-switch-branch"):
+        return f"C35|op=masked-update|on=any|field={issue.clause}|cond=masked-off-entry-reruns-switch-branch"
+    return None
+
+
 PLAN = _drive.Plan(
     "C35", cfg_fn,
     clauses={"mask.*", "maskc.*"},
@@ -104,6 +119,7 @@ PLAN = _drive.Plan(
     always=(),
     exc_is_violation=True,
 )
+PLAN.sig_fn = sig_fn
 
 
 def run(ctx):
